@@ -526,6 +526,7 @@ def run(ck):
     n = crc_consts(ck, P, "K1")
     adler_consts(ck, P)
     adler_combine_proof(ck, P)
+    combine_branch_free(ck, P)
     crc_start_flow(ck, P)
     start_value_uses(ck, P)
     adler_final_reduction(ck, P)
@@ -592,3 +593,30 @@ def start_consumed_once(ck, P, cfg, R="FLOW/crc-start"):
 # session 5 (round 11)
 EXPLANATION = EXPLANATION + " " + (
     'FLOW/crc-start:consumed (round 11, AVX-512 configuration K3b): the VPCLMULQDQ fold takes the start value by &mut and stores 0 where it xors it into the data, so the 128-bit steps that follow do not fold it in again.')
+
+
+def combine_branch_free(ck, P, R="ATOM/combine-branch-free"):
+    """crc32_combine(crc1, crc2, len2) = multmodp(x^(8 len2), crc1) ^ crc2, and the _gen/_op forms: pure arithmetic.  None of the
+    three decides on the value of a checksum argument - a non-empty block can have any CRC, 0 included, so a shortcut for a
+    special value of crc1/crc2 breaks combine(ck(A), ck(B), |B|) == ck(A || B) for exactly the blocks that hit it."""
+    n = 0
+    for name in ("crc32_combine", "crc32_combine_op"):
+        f = P.fn(Z + "crc32::combine::" + name)
+        if not ck.anchor("fn crc32::combine::" + name, f):
+            continue
+        ck.use_fn(f)
+        n += 1
+        crcs = {i for i in range(1, (f.arg_count or 0) + 1) if (f.local_name(i) or "").startswith("crc")}
+        bad = []
+        for b in sorted(f.live):
+            t = f.blocks[b]["t"]
+            if t["k"] != "switch" or b in f.debug_branches:
+                continue
+            d = f.operand_expr(t["discr"])
+            if any(x[0] in ("p", "v") and x[1] in crcs for x in mir.walk(d)):
+                bad.append(t.get("line"))
+        ck.decide(not bad, R, name, "no branch on a checksum argument",
+                  "%s branches on the value of a checksum argument: the combination is linear arithmetic for every value, and a "
+                  "shortcut for one value (e.g. crc2 == 0 taken for an empty block) is wrong for non-empty blocks with that CRC" % f.path,
+                  where(f, bad[0] if bad else None))
+    ck.floor(R, n, 2)
